@@ -72,6 +72,26 @@ theorem decode_unknown_word (ws : List Word) (hc : ValidCount ws.length) (w : Wo
     exact ⟨w, hw, by simpa using hnot⟩
   rw [this]; rfl
 
+/-- the third documented error: a sentence of valid length whose words are all in the list but which is not the
+encoding of any entropy (i.e. its embedded checksum does not match) is rejected with ErrInvalidChecksum — so the
+three outcomes `invalidMnemonic` / `invalidChecksum` / accepted are exactly: bad count or unknown word / checksum
+mismatch / encoding of its entropy. -/
+theorem decode_bad_checksum (ws : List Word) (hc : ValidCount ws.length) (hall : ∀ w ∈ ws, w ∈ W)
+    (hne : ∀ e, mnemonicToEntropy H W ws ≠ .ok e) :
+    mnemonicToEntropy H W ws = .error .invalidChecksum := by
+  unfold mnemonicToEntropy at hne ⊢
+  simp only at hne ⊢
+  rw [if_neg ((validCount_iff ws.length).mpr hc)] at hne ⊢
+  have hallb : (!ws.all fun w => W.contains w) = false := by
+    simp only [Bool.not_eq_false', List.all_eq_true, List.contains_iff_mem]
+    exact hall
+  rw [hallb] at hne ⊢
+  simp only [Bool.false_eq_true, if_false] at hne ⊢
+  split
+  · rfl
+  · rename_i h
+    exact absurd (if_neg h) (hne _)
+
 end
 
 /-- the two built-in lists satisfy the hypotheses (2048 pairwise distinct words each). -/
